@@ -32,6 +32,8 @@ pub enum DupKind {
     XAmzDateBesideDateHeader,
     TokenHeader,
     BothCarriers,
+    /// header carrier with an X-Amz-Security-Token QUERY parameter carrying another token
+    QueryTokenOnHeaderCarrier,
 }
 
 const KINDS: &[DupKind] = &[
@@ -51,6 +53,7 @@ const KINDS: &[DupKind] = &[
     DupKind::XAmzDateBesideDateHeader,
     DupKind::TokenHeader,
     DupKind::BothCarriers,
+    DupKind::QueryTokenOnHeaderCarrier,
 ];
 
 #[derive(Clone, Debug, Serialize, Deserialize)]
@@ -94,7 +97,7 @@ pub fn make_case(mut plan: Plan, k: u16, decoy_first: bool, before_signing: bool
                     use DupKind::*;
                     // put the plan on the carrier the duplicate kind is about
                     let want_query = matches!(kind, QCredential | QDate | QSignedHeaders | QSignature | QToken | QAlgorithm);
-                    let want_header = matches!(kind, AuthHeaderOtherScheme | AuthHeaderAws4Decoy | InnerCredential | InnerSignedHeaders | InnerSignature | XAmzDateHeader | DateHeaderBesideXAmzDate | XAmzDateBesideDateHeader | TokenHeader);
+                    let want_header = matches!(kind, AuthHeaderOtherScheme | AuthHeaderAws4Decoy | InnerCredential | InnerSignedHeaders | InnerSignature | XAmzDateHeader | DateHeaderBesideXAmzDate | XAmzDateBesideDateHeader | TokenHeader | QueryTokenOnHeaderCarrier);
                     if want_query && plan.spec.carrier != Carrier::Query || want_header && plan.spec.carrier != Carrier::Header {
                         plan.spec.carrier = if want_query { Carrier::Query } else { Carrier::Header };
                         plan.spec.signed_headers.retain(|h| h != "x-amz-date" && h != "date" && h != "x-amz-security-token");
@@ -111,7 +114,7 @@ pub fn make_case(mut plan: Plan, k: u16, decoy_first: bool, before_signing: bool
                         plan.cfg.reqs = Reqs::default();
                         plan.spec.use_date_header = kind == XAmzDateBesideDateHeader;
                     }
-                    if matches!(kind, TokenHeader | QToken) && plan.spec.token.is_none() {
+                    if matches!(kind, TokenHeader | QToken | QueryTokenOnHeaderCarrier) && plan.spec.token.is_none() {
                         plan.spec.token = Some("genuine/token+1==".into());
                         plan.entry.token = plan.spec.token.clone();
                     }
@@ -205,9 +208,12 @@ fn apply_dup(dc: &DupCase, req: &mut WireRequest, signed: bool) {
         DateHeaderBesideXAmzDate => insert_header(req, "Date", &decoy_ts, dc.decoy_first, "x-amz-date"),
         XAmzDateBesideDateHeader => insert_header(req, "X-Amz-Date", &decoy_ts, dc.decoy_first, "date"),
         TokenHeader => insert_header(req, "X-Amz-Security-Token", "decoy/token", dc.decoy_first, "x-amz-security-token"),
+        QueryTokenOnHeaderCarrier => insert_query(req, p.cfg.fold, dc.in_body, "X-Amz-Security-Token=decoy%2Ftoken", dc.decoy_first),
         BothCarriers => {
             if p.spec.carrier == Carrier::Header {
-                insert_query(req, p.cfg.fold, dc.in_body, "X-Amz-Algorithm=AWS4-HMAC-SHA256", dc.decoy_first);
+                // the other carrier's marker, with the proper value or an empty / foreign one
+                let v = ["X-Amz-Algorithm=AWS4-HMAC-SHA256", "X-Amz-Algorithm=", "X-Amz-Algorithm", "X-Amz-Algorithm=AWS4-HMAC-SHA512", "X-Amz-Algorithm=aws4&X-Amz-Algorithm=AWS4-HMAC-SHA256"][(dc.decoy_delta_s.unsigned_abs() % 5) as usize];
+                insert_query(req, p.cfg.fold, dc.in_body, v, dc.decoy_first);
             } else {
                 insert_header(
                     req,
@@ -291,6 +297,7 @@ pub fn check_dup(dc: &DupCase, cc: &mut CaseCtx) -> CheckResult {
         XAmzDateBesideDateHeader => "x-amz-date-beside-date",
         TokenHeader => "token-header",
         BothCarriers => "both-carriers",
+        QueryTokenOnHeaderCarrier => "query-token-on-header-carrier",
     };
     if !a.verdict().is_specified() {
         cc.unspecified = true;
